@@ -66,6 +66,10 @@ Degenerate == NV(3) \o << K("add_edge", 0, 0, <<>>, TRUE), KLF("add_face", <<0>>
 PyramidFaces == NV(5) \o << K("add_edge", 1, 0, <<>>, FALSE), K("add_edge", 1, 2, <<>>, FALSE),
                             K("add_edge", 3, 2, <<>>, FALSE), K("add_edge", 3, 0, <<>>, FALSE),
                             FV(<<0, 3, 2, 1>>), FV(<<0, 1, 4>>), FV(<<1, 2, 4>>), FV(<<2, 3, 4>>), FV(<<3, 0, 4>>) >>
+(* a dangling triangle created FIRST, then a tetrahedron whose faces are stored inward so *)
+(* that its cell lists only odd halffaces                                               *)
+InwardTet == NV(7) \o << FV(<<4, 5, 6>>), FV(<<0, 1, 2>>), FV(<<0, 3, 1>>), FV(<<1, 3, 2>>), FV(<<0, 2, 3>>),
+                         KLF("add_cell", <<3, 5, 7, 9>>, TRUE) >>
 SeedScript(k) ==
   CASE k = 0 -> <<>>
     [] k = 1 -> Tet1
@@ -79,6 +83,7 @@ SeedScript(k) ==
     [] k = 5 -> NV(3) \o << FV(<<0, 1, 2>>), FV(<<0, 1, 2>>), KLF("add_cell", <<0, 3>>, TRUE) >>
     [] k = 12 -> PyramidFaces \o << KLF("add_cell", <<0, 2, 4, 6, 8>>, TRUE) >>
     [] k = 13 -> PyramidFaces
+    [] k = 14 -> InwardTet
     [] k = 9 -> Prism
     [] k = 10 -> EdgeShare
     [] k = 11 -> Degenerate
@@ -226,7 +231,7 @@ SimEmit == (Emit = "sim" /\ Len(path) = Depth - 2) =>
               PrintT(<<"SIM", ToJson([key |-> org.key, script |-> org.script, path |-> path])>>)
 
 (* seeds are well-formed, closed where they claim to be, caches inverse *)
-ExpectedCells(k) == CASE k \in {0, 6, 11, 13} -> 0 [] k \in {1, 4, 5, 9, 12} -> 1 [] k \in {2, 7, 10} -> 2 [] k \in {3, 8} -> 3
+ExpectedCells(k) == CASE k \in {0, 6, 11, 13} -> 0 [] k \in {1, 4, 5, 9, 12, 14} -> 1 [] k \in {2, 7, 10} -> 2 [] k \in {3, 8} -> 3
 SeedOK == (path = <<>>) => /\ WellFormed(s) /\ CacheIsInverse(s) /\ FanOrder(s) /\ s.err = ""
                            /\ Len(s.cells) = ExpectedCells(org.key[1])   \* every add_cell of the seed script was accepted
 =============================================================================
